@@ -976,3 +976,106 @@ V("C14-benign-guard-helper-var", "C14", "env value bound to a local before the s
                     continue""",
   new="""                if isinstance(field.env, str) and field.env and os.environ.get(field.env):
                     continue""")
+
+# ------------------------------------------------------------------------------------------ C16
+V("C16-bool-default-removed", "C16", "D10 re-introduced: on switch defaults to False", SUP,
+  "                action=\"store_true\",\n                default=None,", "                action=\"store_true\",", expect_rule="parser.default-is-absent-sentinel")
+V("C16-dest-is-arg", "C16", "dest is the option string instead of the path", SUP,
+  "                arg, action=\"store\", dest=name, help=field.short_help, metavar=metavar", "                arg, action=\"store\", dest=arg, help=field.short_help, metavar=metavar",
+  expect_rule="parser.dest-is-path")
+V("C16-override-truthiness", "C16", "override drops falsy supplied values", SUP,
+  "        if key not in ignore and value is not None:", "        if key not in ignore and value:", expect_rule="override.supplied-guard")
+V("C16-override-writes-data", "C16", "override writes _data directly for top-level keys", SUP,
+  "            config.__setitem__(key, value)", "            if \".\" in key:\n                config.__setitem__(key, value)\n            else:\n                config._data[key] = value",
+  expect_rule="override.only-via-setitem")
+V("C16-override-ignores-ignore", "C16", "ignore list not consulted", SUP,
+  "        if key not in ignore and value is not None:", "        if value is not None:", expect_rule="override.ignore-guard")
+V("C16-contains-other-sep", "C16", "Config.__contains__ splits on '/'", CORE,
+  "        key, _, subkey = key.partition(\".\")\n        if subkey:\n            cfg = self._data.get(key)", "        key, _, subkey = key.partition(\"/\")\n        if subkey:\n            cfg = self._data.get(key)",
+  expect_rule="separator @ Config.__contains__")
+V("C16-reset-first-component", "C16", "reset_value splits off the first component", SUP,
+  "    path, _, key = key.rpartition(\".\")\n    if path:\n        config = config[path]\n\n    field = config._get_field(key)",
+  "    path, _, key = key.partition(\".\")\n    if path:\n        config = config[path]\n\n    field = config._get_field(key)", expect_rule="separator.direction")
+V("C16-enumeration-no-prefix", "C16", "get_all_fields drops the prefix for nested fields", SUP,
+  "                    (prefix + subkey, schema, subfield)", "                    (subkey, schema, subfield)", expect_rule="enumeration.prefix")
+V("C16-bool-single-switch", "C16", "booleans get only the on switch", SUP,
+  "            parser.add_argument(\n                off_arg, dest=name, action=\"store_false\", default=None\n            )\n", "", expect_rule="parser.on-off-for-bool")
+V("C16-benign-kw-order", "C16", "keyword order of add_argument changed", SUP, expect="silent",
+  old="                arg, action=\"store\", dest=name, help=field.short_help, metavar=metavar",
+  new="                arg, dest=name, metavar=metavar, action=\"store\", help=field.short_help")
+
+# ------------------------------------------------------------------------------------------ C18
+V("C18-ret-is-base", "C18", "combine_trees merges into the base tree itself", INC,
+  "        ret = dict(base)", "        ret = base", expect_rule="combine_trees")
+V("C18-args-swapped", "C18", "include passes (child, base)", INC,
+  "        return self.combine_trees(base, child)", "        return self.combine_trees(child, base)", expect_rule="include.argument-roles")
+V("C18-base-wins", "C18", "conflicting scalars keep the including document's value", INC,
+  "                else:\n                    ret[key] = value\n            else:\n                ret[key] = value",
+  "                else:\n                    ret[key] = base_value\n            else:\n                ret[key] = value", expect_rule="included-wins")
+V("C18-no-recursion", "C18", "nested maps replaced wholesale", INC,
+  "                if isinstance(base_value, dict) and isinstance(value, dict):\n                    ret[key] = self.combine_trees(base_value, value)\n                else:\n                    ret[key] = value",
+  "                ret[key] = value", expect_rule="recursion.exists")
+V("C18-recursion-swapped", "C18", "recursive merge swaps its arguments", INC,
+  "                    ret[key] = self.combine_trees(base_value, value)", "                    ret[key] = self.combine_trees(value, base_value)",
+  expect_rule="recursion.argument-order")
+V("C18-exists-none", "C18", "IncludeField accepts missing files", INC,
+  "        super().__init__(exists=\"file\", startdir=startdir, **kwargs)", "        super().__init__(exists=None, startdir=startdir, **kwargs)", expect_rule="exists-file")
+V("C18-open-unvalidated", "C18", "include opens the raw file name", INC,
+  "        filename = self.validate(config, filename)\n        with open(os.path.expanduser(filename), \"rb\") as fp:",
+  "        self.validate(config, filename)\n        with open(os.path.expanduser(filename), \"rb\") as fp:", expect_rule="opens-validated-path")
+V("C18-nested-first", "C18", "nested scopes processed before this scope's includes", CORE, edits=[
+    (CORE, """        for key, field in includes:
+            # For each of the included field names, check if it has a value in the parsed tree""",
+     """        for key, sub_schema in sub_schemas:
+            if tree.get(key):
+                tree[key] = self._process_includes(
+                    sub_schema, tree[key], format_factory
+                )
+
+        for key, field in includes:
+            # For each of the included field names, check if it has a value in the parsed tree"""),
+    (CORE, """            tree = field.include(self, formatter, filename, tree)
+
+        for key, sub_schema in sub_schemas:
+            if tree.get(key):
+                tree[key] = self._process_includes(
+                    sub_schema, tree[key], format_factory
+                )
+
+        return tree""", """            tree = field.include(self, formatter, filename, tree)
+
+        return tree""")], expect_rule="includes.before-nested")
+V("C18-nested-result-dropped", "C18", "nested include result not stored back", CORE,
+  "                tree[key] = self._process_includes(\n                    sub_schema, tree[key], format_factory\n                )",
+  "                self._process_includes(\n                    sub_schema, tree[key], format_factory\n                )", expect_rule="nested.stored-back")
+V("C18-child-mutated", "C18", "combine_trees pops merged keys from the included tree", INC,
+  "        for key, value in child.items():\n            if key in base:", "        for key, value in list(child.items()):\n            child.pop(key)\n            if key in base:",
+  expect_rule="pure")
+V("C18-benign-copy-method", "C18", "copy made with base.copy()", INC, expect="silent",
+  old="        ret = dict(base)", new="        ret = base.copy()")
+
+# ------------------------------------------------------------------------------------------ C20
+V("C20-print", "C20", "D9a re-introduced: debug print in the stub generator", STUBS,
+  "        return \"\"\n\n    return \" -> %s\" % typestr if typestr else \"\"", "        return \"\"\n\n    print(\"retval:\", repr(annotation))\n    return \" -> %s\" % typestr if typestr else \"\"",
+  expect_rule="no-output")
+V("C20-print-in-callee", "C20", "a helper reachable from generate_stub prints", STUBS,
+  "    typestr = get_annotation_typestr(field)\n    return \"%s: %s\" % (key, typestr)", "    typestr = get_annotation_typestr(field)\n    sys.stdout.write(typestr)\n    return \"%s: %s\" % (key, typestr)",
+  expect_rule="no-output")
+V("C20-no-configtype-branch", "C20", "D9b re-introduced: no ConfigTypeField branch", STUBS,
+  "    elif isinstance(field, ConfigTypeField):\n        storage_type = field.config_type\n", "", expect_rule="dispatch.total")
+V("C20-no-schema-branch", "C20", "Schema branch dropped", STUBS,
+  "    elif isinstance(field, Schema):\n        storage_type = Schema\n", "", expect_rule="dispatch.total")
+V("C20-creates-field", "C20", "generate_stub reads an attribute off the Schema (creates a field)", STUBS,
+  "    properties: Dict[str, str] = {}", "    if isinstance(config, Schema) and config.stub_hidden:\n        return \"\"\n    properties: Dict[str, str] = {}",
+  expect_rule="pure")
+V("C20-virtual-in-ctor", "C20", "virtual fields become constructor parameters", STUBS,
+  "        if isinstance(field, VirtualField):\n            properties[key] = get_arg_annotation(key, field)",
+  "        if isinstance(field, VirtualField):\n            attrs[key] = properties[key] = get_arg_annotation(key, field)", expect_rule="partition.ctor-only-persistent")
+V("C20-methods-not-rendered", "C20", "instance methods silently dropped", STUBS,
+  "        elif isinstance(field, InstanceMethodField):\n            methods[key] = field\n", "        elif isinstance(field, InstanceMethodField):\n            continue\n",
+  expect_rule="partition.")
+V("C20-caches-on-schema", "C20", "generate_stub caches its result on the schema", STUBS,
+  "    return \"\\n\".join(blocks)", "    schema._stub_cache = \"\\n\".join(blocks)\n    return schema._stub_cache", expect_rule="pure")
+V("C20-benign-elif-to-if", "C20", "dispatch rewritten with early assignments", STUBS, expect="silent",
+  old="    elif isinstance(field, type):\n        storage_type = field\n    elif isinstance(field, str):\n        storage_type = field",
+  new="    elif isinstance(field, (type, str)):\n        storage_type = field")
